@@ -232,18 +232,35 @@ def body(ctx: Ctx):
         import executorlib
 
         g = fresh()
-        for kw, label in ((dict(block_allocation=True, max_workers=1), "block"), (dict(block_allocation=False, max_cores=6), "percall")):
-            for n in ([2, 3] if ctx.tier == "quick" else [2, 3, 4, 5]):
+        import contextlib
+
+        @contextlib.contextmanager
+        def machine(narrow):
+            """narrow: this process (and the workers it starts) may use ONE cpu, as under taskset / in a small cgroup — a call assigned
+            n cores still runs on n ranks"""
+            old = os.sched_getaffinity(0)
+            try:
+                if narrow:
+                    os.sched_setaffinity(0, {min(old)})
+                yield
+            finally:
+                os.sched_setaffinity(0, old)
+
+        plan = [(kw, label, n, False) for kw, label in ((dict(block_allocation=True, max_workers=1), "block"), (dict(block_allocation=False, max_cores=6), "percall"))
+                for n in ([2, 3] if ctx.tier == "quick" else [2, 3, 4, 5])]
+        plan += [(dict(block_allocation=True, max_workers=1), "block", 3, True), (dict(block_allocation=False, max_cores=6), "percall", 2, True)]
+        for kw, label, n, narrow in plan:
+            with machine(narrow):
                 rd = {"cores": n}
                 exe = executorlib.Executor(backend="local", resource_dict=rd if label == "block" else None, **kw)
                 try:
                     futs = [exe.submit(g["f_rank"], 10 * n + j, **({} if label == "block" else {"resource_dict": {"cores": n}})) for j in range(3)]
                     got = [f.result(timeout=120) for f in futs]
                     want = [[[r, 10 * n + j] for r in range(n)] for j in range(3)]
-                    ctx.case({"executor": label, "cores": n}, nontrivial=True)
-                    ctx.count("executor." + label)
+                    ctx.case({"executor": label, "cores": n, "one_cpu_machine": narrow}, nontrivial=True)
+                    ctx.count("executor." + label + (".one_cpu_machine" if narrow else ""))
                     if got != want:
-                        bad.append({"executor": label, "cores": n, "got": got, "want": want})
+                        bad.append({"executor": label, "cores": n, "one_cpu_machine": narrow, "got": got, "want": want})
                 finally:
                     exe.shutdown(wait=True)
         # ---- exception objects as RETURN values (errors-as-values): delivered in the rank-ordered list like any other value
